@@ -653,15 +653,15 @@ IterMethod(c, node, recv, args) ==
     IN IF ~ai.ok THEN Unspec(c, "iter-method-receiver")
        ELSE CASE m = "iter" -> Rt(ai.c, VItr(ai.a))
               [] m = "next" ->
-                    (IF recv.t # "itr" THEN Unspec(c, "next-on-non-iterator") ELSE Pull(Push(ai.c, [k |-> "nextk"]), ai.a))
+                    (IF recv.t # "itr" THEN Unspec(c, "next-on-non-iterator") ELSE Pull(Push(ai.c, [k |-> "nextk", site |-> node.id]), ai.a))
               [] m \in {"each", "keep"} ->
                     (IF args[1].t # "fn" THEN Unspec(c, "adaptor-functor-kind")
-                     ELSE Rt(Alloc(ai.c, [k |-> m, src |-> ai.a, f |-> args[1]]), VItr(NewAddr(ai.c))))
+                     ELSE Rt(Alloc(ai.c, [k |-> m, src |-> ai.a, f |-> args[1], site |-> node.id]), VItr(NewAddr(ai.c))))
               [] m \in {"to_tuple", "to_list", "count", "sum"} ->
-                    Pull(Push(ai.c, [k |-> "collect", m |-> m, acc |-> <<>>, a |-> ai.a]), ai.a)
+                    Pull(Push(ai.c, [k |-> "collect", m |-> m, acc |-> <<>>, a |-> ai.a, site |-> node.id]), ai.a)
               [] m = "fold" ->
                     (IF args[2].t # "fn" THEN Unspec(c, "fold-functor-kind")
-                     ELSE Pull(Push(ai.c, [k |-> "fold", acc |-> args[1], f |-> args[2], a |-> ai.a, ph |-> "pull"]), ai.a))
+                     ELSE Pull(Push(ai.c, [k |-> "fold", acc |-> args[1], f |-> args[2], a |-> ai.a, ph |-> "pull", site |-> node.id]), ai.a))
 
 (* method calls on containers: node.m with receiver vs[1] and arguments the rest *)
 (* Which core-library module provides a method (docs/core_lib): a value's own module, then the iterator
@@ -1308,12 +1308,25 @@ Unwind(c) ==
          ELSE Ev(Push(c0, [f EXCEPT !.ph = "cond"]), f.node.c))
     ELSE IF f.k = "call" THEN
         (CASE ctl.m = "ret" -> CallReturn(c0, f, ctl.v)
-           [] ctl.m = "thr" -> [c0 EXCEPT !.env = f.env, !.ctl.trace = Append(@, f.site)]
+           [] ctl.m = "thr" ->
+                \* a function called from script code records its call site; one called by a core-library function (site 0)
+                \* is recorded by that function's frame
+                [c0 EXCEPT !.env = f.env, !.ctl.trace = IF f.site = 0 THEN @ ELSE Append(@, f.site)]
            [] OTHER -> Unspec(c, "loop-control-across-call"))
     ELSE IF f.k = "genb" THEN
         (CASE ctl.m = "ret" -> Rt([c0 EXCEPT !.store[f.a].st = "done", !.env = f.env], SigEnd)
-           [] ctl.m = "thr" -> [c0 EXCEPT !.store[f.a].st = "done", !.env = f.env]
+           [] ctl.m = "thr" ->
+                \* C12: an error leaving a generator body passes the place that asked for the next value; a `for` loop is
+                \* such a place (core-library consumers record themselves below)
+                (LET c1 == [c0 EXCEPT !.store[f.a].st = "done", !.env = f.env] IN
+                 IF c0.kont # <<>> /\ Top(c0).k = "loop" /\ Top(c0).node.k = "for"
+                 THEN [c1 EXCEPT !.ctl.trace = Append(@, Top(c0).node.id)] ELSE c1)
            [] OTHER -> Unspec(c, "loop-control-across-generator"))
+    ELSE IF ctl.m = "thr" /\ f.k \in {"nextk", "collect", "fold"} /\ "site" \in DOMAIN f THEN
+        \* C12: a core-library function that was running user code is an enclosing call site
+        [c0 EXCEPT !.ctl.trace = Append(@, f.site)]
+    ELSE IF ctl.m = "thr" /\ f.k = "adaptf" /\ "site" \in DOMAIN c0.store[f.a] THEN
+        [c0 EXCEPT !.ctl.trace = Append(@, c0.store[f.a].site)]
     ELSE c0      \* discard the frame and keep unwinding
 
 (***************************************************************************)
